@@ -230,6 +230,10 @@ def run(P, R, tier):
     R.assume('S1: Arrow ListArray buffers [v0,o0,...,data]; array.offset/len describe the level-0 window only; null slots of fixed-width arrays hold arbitrary bytes')
     R.assume('S2: coordinate index 2m is x_m, 2m+1 is y_m; S3: boxes are (x0, y0, x1, y1)')
     kernel_rules(P, R, tier)
+    for qn in ('GeometryListArray.bounds', 'GeometryListArray.total_bounds', 'GeometryListArray.total_bounds_x', 'GeometryListArray.total_bounds_y'):
+        f_ = P.mods['spatialpandas.geometry.baselist'].funcs.get(qn)
+        if f_ is not None and any((lambda r: r and r[0] == 'func' and r[1].mod.name == BND)(P.resolve_call(f_, c_)) for c_ in astq.own_calls(f_)):
+            common.kernel_on_every_path(P, R, 'C13.b', f_, lambda g: g.mod.name == BND, 'the bounds kernel', 'the extent is answered by a shortcut instead of being computed from the coordinates of exactly this array\'s elements')
     # C13.i (seed S11: `ufunc.reduceat(a, starts)` returns a[starts[k]] for an EMPTY segment, not the identity): a per-element reduction over
     # offset-delimited segments must repair the rows of elements without vertices, which otherwise receive the next element's first vertex as their box
     R.assume('S11: numpy ufunc.reduceat yields a[start] (not the reduction identity) for a segment of length 0')
